@@ -327,6 +327,13 @@ func c04(r *ev.Run, replay string) {
 	}
 	nv, complete := sel.vary(r.Seed, r.Expired, func(t *wire.N, what string) { c04One(r, t, what) })
 	fields += nv
+	if np, ok := sel.varyPairs(r.Expired, func(t *wire.N, what string) { c04One(r, t, what) }); ok {
+		fields += np
+		r.Set("same_element_pair_variations", np)
+		r.Completed("V1b every pair of scalar fields of one element set to {0, 1, largest, largest-2} x {0, 1, largest, largest-2}")
+	} else {
+		r.Incomplete("V1b same-element field pairs")
+	}
 	if complete && !r.Expired() {
 		r.Completed(fmt.Sprintf("V1 every scalar / fixed-width byte field (match-field values and masks included) varied alone over its value alphabet: all fields of %d hand-picked base messages, and each (root kind, element kind, field) of the switch corpus in the first of %d frames that shows it", len(c04Bases()), len(sel.bases)))
 	} else {
